@@ -47,8 +47,9 @@ def design(w, caps=((0, 0), (1, 1), (2, 3)), fam="rs", any_order_at=None):
 
 def trace_cfg(fam):
     u, p = p_recv.FAMILIES[fam]
-    return ("SPECIFICATION TSpec\nCONSTANTS\n  Family = \"%s\"\n  Universe <- %s\n  ParentMap <- %s\n  BaseMap <- BaseAll\n  MaxRules = 0\n"
-            "  CapUp = 1000000\n  CapDown = 1000000\n  Modes = {\"cmd\", \"daemon\"}\n  ListOrders = {\"any\"}\n  RcvAfterGen = FALSE\nCHECK_DEADLOCK TRUE\n" % (fam[:3], u, p))
+    basemap = "Bconc" if fam == "conc" else "BaseAll"
+    return ("SPECIFICATION TSpec\nCONSTANTS\n  Family = \"%s\"\n  Universe <- %s\n  ParentMap <- %s\n  BaseMap <- %s\n  MaxRules = 0\n"
+            "  CapUp = 1000000\n  CapDown = 1000000\n  Modes = {\"cmd\", \"daemon\"}\n  ListOrders = {\"any\"}\n  RcvAfterGen = FALSE\nCHECK_DEADLOCK TRUE\n" % (fam[:3], u, p, basemap))
 
 
 def slim_nodes(nodes):
